@@ -97,6 +97,39 @@ CHECKS.update({
     ),
 })
 
+_NET = "TLA+ oracle (NetTrace.tla over Net.tla: CanonicalQuad, DomainShape with the shipped TLD table, EmailShape, UrlShape, NormalizePercent, UrlSplit/AuthSplit, DotSegments, InetAton, WinNorm) evaluated by TLC"
+CHECKS.update({
+    "C01": dict(
+        level="model_checking", ref="5 (C01), 3.1, 3.6",
+        technique="TLC: liveness TerminatesDone + NoHang of the engine machine over the world family (and the demonstration that NoHang fails as soon as a hit may end past its text); Session.tla (Call, Return, five Views; no raise / timeout action) validates every recorded session",
+        text="Engine termination is model-checked (weak fairness, self-reproducing worlds, K from -1 to 5 across tiers); it reduces to the decoder-side obligation of in-bounds spans, which the out-of-bounds configuration shows to be necessary. On the implementation side ~26k (quick) / ~600k (thorough) sessions - every string over each conversion site's critical alphabet behind its trigger prefixes (shell carets/quotes/line ends/parentheses, XML references, base64/hex malformations, quote soup), xor keys 0..999 in three forms, code points 0..99999, a PE-header grid, byte arrays with periodic xor keys, repository literals under mutation, token soup, binary garbage, depth limits of every sign - run under a process-level watchdog (a regular expression stuck in C code is killed and reported); each session must be a complete behaviour of Session.tla; suspected hangs are re-confirmed alone with 60 s.",
+        note="inputs <= 4 KiB; Python recursion-limit nesting (about 1000 layers) not explored; " + TRUST,
+    ),
+    "C03": dict(
+        level="model_checking", ref="5 (C03), 3.1, 4",
+        technique="TLC: invariant WellFormed in every state of every world (Scan.tla); trace validation (ScanTrace.tla) of the observed tree clause by clause: wf.root, wf.link (parent pointers and single ownership by object identity), wf.span, wf.iter (list(root) = pre-order)",
+        text="The spec side is exhaustive in the bounded family. Every recorded scan (synthetic worlds and shipped decoders, incl. decoder-built sub-trees: URL parts, path parts, xor children, powershell-in-cmd children) is checked by TLC for root fields, parent links, ownership, in-bounds spans and iteration order. Two known findings (K06b, K08), both pinned by repository tests, are reported as KNOWN-FINDING and matched by producer, node type and rule.",
+    ),
+    "C10": dict(
+        level="exploration", ref="5 (C10), 3.5",
+        technique=_NET + " on every network.* node of recorded scans (network token soup, repository literals, URL lattice)",
+        text="Output condition monitored on every network.ip / domain / email / url node (with its parent type, to tell free-text indicators from URL / UNC hosts): canonical dotted quad and value = covered text in free text; name + registered TLD, charset and length >= 7 in free text; e-mail shape; scheme and non-empty host; value = NormalizePercent(covered) and the escape.percent label iff shortened.",
+        note="regular-expression languages are sampled; " + TRUST,
+    ),
+    "C11": dict(
+        level="exploration", ref="5 (C11), 3.5",
+        technique=_NET + " on generated indicator instances embedded between neutral delimiters at rotating offsets; TLC decides domain membership (e.g. CanonicalQuad and not .0/.255/all-zero; FreeDomain; UrlShape) and requires a node of the documented type, canonical value and exact absolute span",
+        text="Instances: IPv4 octet boundary values, domains with label lengths 2..63 under registered and unregistered TLDs (7-character minimum), the URL component lattice, e-mail addresses, Windows path lattice (drive / UNC / device prefixes x dot segments x file names), POSIX paths, .exe / .dll names in three cases, CreateObject with nested parentheses, structurally valid PE files with 1..3 sections with leading junk and trailing bytes. 8 prefixes x 6 suffixes rotate over the instances.",
+        note="documented false-positive shapes are not generated; regular-expression languages are sampled; " + TRUST,
+    ),
+    "C12": dict(
+        level="model_checking", ref="5 (C12), 3.4",
+        technique="TLC: UrlMC.tla - the offset walk of parse_url / parse_authority as a machine vs the span specification over 972 URLs (the pinned-commit variant must fail); NetTrace.tla recomputes the complete child list (type, span, decoded value, label) of every URL node and value / label / type / children of every Windows-path node",
+        text="Every URL node met in scans and every point of the component lattice (5 schemes x 8 userinfo forms x 15 hosts incl. inet_aton spellings x 4 ports x dot-segment paths x 4 queries x 4 fragments) is judged: UrlSplit / AuthSplit give the spans, PercentDecode / DotSegments / InetAton (limb arithmetic) the values and labels. Windows paths: ntpath.splitroot and the normpath loop are transcribed (WinNorm); type, dotpath label, host child at 2 / 8 and file-name child are recomputed.",
+        note="IPv6 hosts and hosts with residual percent-escapes are outside the judged domain; " + TRUST,
+    ),
+})
+
 NOT_YET = {
     "C01": "check under construction in this session (Session.tla + drivers); not claimed until it runs clean",
     "C02": "check under construction (Layers.tla)",
